@@ -49,7 +49,7 @@ deriving Repr, DecidableEq, Inhabited
 
 structure BankCfg where
   bw      : Nat            -- bus data width
-  ord     : Ordering
+  ord     : WordOrdering
   pbits   : Nat            -- log2_int(paging//4)
   address : Nat            -- bank number (compared with adr[pbits:])
   regs    : List RegSpec
